@@ -678,13 +678,60 @@ def scen_roundtrip(g, n):
     return out
 
 
+OCI_METHODS = ['GET', 'HEAD', 'POST', 'PUT', 'PATCH', 'DELETE', 'OPTIONS']
+OCI_COMPONENTS = ['a', 'library', 'ubuntu', 'my-image', 'my__image', 'a.b', 'a_b', 'a--b', '0', 'x9', 'blobs', 'manifests', 'uploads', 'tags', 'list', 'v2']
+OCI_BAD_COMPONENTS = ['A', 'a..b', '-a', 'a-', 'a___b', '_a', 'a_', 'a.-b', 'é', 'a b', '', 'a.', 'Ubuntu', 'a+b']
+OCI_TOKENS = ['latest', 'v1.0', 'sha256:abc123', 'sha256:e3b0c44298fc1c149afbf4c8996fb92427ae41e4649b934ca495991b7852b855', 'uploads', 'list',
+              '0f4e9a7e-1b7c-4c1e-9d3a-2f6b8e1c0a55', 'A_B', 'x', 'blobs', 'é']
+
+
+def scen_oci(g, n):
+    r = g.r
+    import os
+    tsv = os.path.join(os.path.dirname(os.path.dirname(os.path.abspath(__file__))), 'build/oci_routes.tsv')
+    out = ['ocinew ' + tsv]
+
+    def name():
+        k = r.choice([1, 1, 2, 2, 3])
+        comps = [r.choice(OCI_COMPONENTS) for _ in range(k)]
+        if r.random() < 0.2:
+            comps[r.randrange(k)] = r.choice(OCI_BAD_COMPONENTS)
+        return '/'.join(comps)
+    for _ in range(n):
+        nm = name()
+        tok = r.choice(OCI_TOKENS)
+        shape = r.choice(['/v2', '/v2/%s/blobs/%s' % (nm, tok), '/v2/%s/manifests/%s' % (nm, tok), '/v2/%s/blobs/uploads' % nm,
+                          '/v2/%s/blobs/uploads/%s' % (nm, tok), '/v2/%s/tags/list' % nm, '/v2/%s/tags/%s' % (nm, tok), '/v2/%s' % nm])
+        if r.random() < 0.4:
+            shape += '/'
+        if r.random() < 0.1:
+            shape = g.mutate_path(shape.encode()).decode(errors='ignore') or '/'
+        for m in (OCI_METHODS if r.random() < 0.3 else [r.choice(OCI_METHODS)]):
+            out.append('oci %s %s' % (hx(m.encode()), hx(shape.encode())))
+        if r.random() < 0.5:
+            out.append('ociname ' + hx(nm.encode()))
+    return out
+
+
+def scen_ociname_exhaustive(maxlen):
+    out = []
+    alpha = ['a', '0', '.', '_', '-', '/', 'A']
+    cur = ['']
+    for _ in range(maxlen):
+        cur = [s + c for s in cur for c in alpha]
+        out += ['ociname ' + hx(s.encode()) for s in cur]
+    return out
+
+
 def make(scen, seed, n):
     g = G(seed)
     if scen.startswith('parsex'):
         return scen_parse_exhaustive(int(scen[6:]))
+    if scen.startswith('ocinamex'):
+        return scen_ociname_exhaustive(int(scen[8:]))
     table = {'hist': scen_hist, 'fresh': scen_fresh, 'clone': scen_clone, 'threads': scen_threads,
              'parse': scen_parse_random, 'builtin': scen_builtin, 'groups': scen_groups,
-             'single': scen_single, 'conflict': scen_conflict, 'roundtrip': scen_roundtrip}
+             'single': scen_single, 'oci': scen_oci, 'conflict': scen_conflict, 'roundtrip': scen_roundtrip}
     return table[scen](g, n)
 
 
